@@ -15,6 +15,7 @@ import Cdecao.Model.Cli
 import Cdecao.Model.Rooms
 import Cdecao.Model.Listing
 import Cdecao.Model.Score
+import Cdecao.Model.RoomsInput
 /-! Model driver: one request per line (`TAG<TAB>payload`), one answer line per request.
     The harness (Rust, calling the real code) writes the same cases and diffs the answers. -/
 open Lean
@@ -721,6 +722,21 @@ def handleSR (payload : String) : String :=
     let doc := CDD.untag ((j.getObjVal? "doc").toOption.getD Json.null)
     if SM.accepts doc then "ACCEPT" else "REFUSE"
 
+/-- `RI`: the two room inputs: `{"str": …}` → `ok a,b,c` / `REFUSE`; `{"file": tagged}` → `ok n` / `REFUSE` -/
+def handleRI (payload : String) : String :=
+  match Json.parse payload with
+  | .error e => s!"bad json {e}"
+  | .ok j =>
+    match (j.getObjValAs? String "str").toOption with
+    | some s =>
+      match RI.parseRoomsStr s with
+      | some l => "ok " ++ ",".intercalate (l.map toString)
+      | none => "REFUSE"
+    | none =>
+      match RI.kindsOf (CDD.untag ((j.getObjVal? "file").toOption.getD Json.null)) with
+      | some ks => s!"ok {ks.length}"
+      | none => "REFUSE"
+
 def handleOS (payload : String) : String :=
   match Json.parse payload with
   | .error e => s!"bad json {e}"
@@ -755,6 +771,7 @@ def dispatch (line : String) : String :=
     | "RS" => handleRS payload
     | "SR" => handleSR payload
     | "OS" => handleOS payload
+    | "RI" => handleRI payload
     | _ => "bad tag"
   | _ => "bad line"
 
